@@ -1,7 +1,8 @@
 /-
   C08 helper lemmas, part 9: the protocol-level reading of the input (`specV1`/`specV2`, the oracle
   behind the `holds` verb) is sound for the model: whatever it calls well-formed, the reader accepts
-  with exactly the advertised addresses and payload (outside the two recorded defect classes).
+  with exactly the advertised addresses and payload, for every input (the one header the reading
+  marks "may be rejected" — PROXY with family AF_UNSPEC — is either read that way or refused).
 -/
 import FwdVerif.Lemmas.C08Conn
 
@@ -16,9 +17,13 @@ theorem getD_of_getElem? {bs : Bytes} {i : Nat} {x : UInt8} (h : bs[i]? = some x
   refine ⟨hl, ?_⟩
   rw [List.getD, h]; rfl
 
+/-- what the checker asks of the reader for a header advertising `a` -/
+def ReadsAs (bs : Bytes) (a : Adv) : Prop :=
+  (∃ h, readHeaderS bs = .ok (h, bs.drop a.hdrLen) ∧ remoteSel (.ok h) = a.remote ∧ localSel (.ok h) = a.loc) ∨
+  (a.mayReject = true ∧ ∃ e, readHeaderS bs = .err e)
+
 /-- a header the protocol-level reading accepts is read by the model as that reading says -/
-theorem specV2_sound {bs : Bytes} {a : Adv} (hs : specV2 bs = some a) (hc : isV2NilAddr bs = false) :
-    ∃ h, readHeaderS bs = .ok (h, bs.drop a.hdrLen) ∧ remoteSel (.ok h) = a.remote ∧ localSel (.ok h) = a.loc := by
+theorem specV2_sound {bs : Bytes} {a : Adv} (hs : specV2 bs = some a) : ReadsAs bs a := by
   unfold specV2 at hs
   split at hs
   · cases hs
@@ -50,10 +55,6 @@ theorem specV2_sound {bs : Bytes} {a : Adv} (hs : specV2 bs = some a) (hc : isV2
           rw [if_neg (by simp [hver])]
           rw [v2Rest_eq, if_neg (by omega), if_neg (by simp only [List.length_drop]; omega), List.drop_drop]
           cases v2Refusal vc fam (l1.toNat * 256 + l2.toNat) <;> rfl
-        -- the class hypothesis
-        unfold isV2NilAddr at hc
-        rw [hpre', e12, e13] at hc
-        simp only [Bool.true_and, hver, beq_self_eq_true] at hc
         by_cases hc0 : (vc.toNat % 16 == 0) = true
         · rw [if_pos hc0] at hs
           injection hs with hs; subst hs
@@ -61,7 +62,7 @@ theorem specV2_sound {bs : Bytes} {a : Adv} (hs : specV2 bs = some a) (hc : isV2
             have : vc.toNat % 16 = 0 := by simpa using hc0
             simp [v2Refusal, this]
           rw [href] at hread
-          refine ⟨_, hread, ?_, ?_⟩ <;> simp [remoteSel, localSel, v2Hdr, hc0]
+          refine Or.inl ⟨_, hread, ?_, ?_⟩ <;> simp [remoteSel, localSel, v2Hdr, hc0]
         · rw [if_neg hc0] at hs
           by_cases hc1 : (vc.toNat % 16 == 1) = true
           · rw [if_pos hc1] at hs
@@ -76,7 +77,7 @@ theorem specV2_sound {bs : Bytes} {a : Adv} (hs : specV2 bs = some a) (hc : isV2
                   unfold v2Refusal; dsimp only
                   rw [if_pos hc1, if_neg (by simp only [beq_iff_eq]; omega), if_pos h4, if_neg h12']
                 rw [href] at hread
-                refine ⟨_, hread, ?_, ?_⟩ <;>
+                refine Or.inl ⟨_, hread, ?_, ?_⟩ <;>
                   simp [remoteSel, localSel, v2Hdr, hc1', h4, mkAddr, ofOpt]
             · rw [if_neg h4] at hs
               by_cases h6 : (fam == 0x21 || fam == 0x22) = true
@@ -89,25 +90,32 @@ theorem specV2_sound {bs : Bytes} {a : Adv} (hs : specV2 bs = some a) (hc : isV2
                     unfold v2Refusal; dsimp only
                     rw [if_pos hc1, if_neg (by simp only [beq_iff_eq]; omega), if_neg h4, if_pos h6, if_neg h36']
                   rw [href] at hread
-                  refine ⟨_, hread, ?_, ?_⟩ <;>
+                  refine Or.inl ⟨_, hread, ?_, ?_⟩ <;>
                     simp [remoteSel, localSel, v2Hdr, hc1', h4, h6, mkAddr, ofOpt]
               · rw [if_neg h6] at hs
                 split at hs
-                · -- AF_UNSPEC: belongs to the class excluded by `hc`
+                · -- AF_UNSPEC: refused when no bytes follow, else accepted without addresses, and
+                  -- `Conn` reports the socket's own
                   rename_i hun
-                  exfalso
+                  injection hs with hs; subst hs
                   have hun' : fam.toNat / 16 = 0 := by simpa using hun
                   have hlt : fam.toNat < 16 := by omega
-                  have ne : ∀ x : UInt8, 16 ≤ x.toNat → fam ≠ x := by
-                    intro x hx e; rw [e] at hlt; omega
-                  simp only [hc1', beq_self_eq_true, Bool.true_and] at hc
-                  have := ne 0x11 (by decide)
-                  have := ne 0x12 (by decide)
-                  have := ne 0x21 (by decide)
-                  have := ne 0x22 (by decide)
-                  have := ne 0x31 (by decide)
-                  have := ne 0x32 (by decide)
-                  simp_all
+                  have hux : ¬ (fam == 0x31 || fam == 0x32) = true := by
+                    intro hu
+                    simp only [Bool.or_eq_true, beq_iff_eq] at hu
+                    rcases hu with e | e <;> (rw [e] at hlt; revert hlt; decide)
+                  by_cases hz : (l1.toNat * 256 + l2.toNat == 0) = true
+                  · have href : v2Refusal vc fam (l1.toNat * 256 + l2.toNat) = some .v2NoAddr := by
+                      unfold v2Refusal; dsimp only
+                      rw [if_pos hc1, if_pos hz]
+                    rw [href] at hread
+                    exact Or.inr ⟨rfl, _, hread⟩
+                  · have href : v2Refusal vc fam (l1.toNat * 256 + l2.toNat) = none := by
+                      unfold v2Refusal; dsimp only
+                      rw [if_pos hc1, if_neg hz, if_neg h4, if_neg h6, if_neg hux]
+                    rw [href] at hread
+                    refine Or.inl ⟨_, hread, ?_, ?_⟩ <;>
+                      simp [remoteSel, localSel, v2Hdr, hc1', h4, h6, ofOpt]
                 · cases hs
           · rw [if_neg hc1] at hs; cases hs
     · cases hs
@@ -209,7 +217,7 @@ theorem v1_decompose {bs : Bytes} {n : Nat} (hpre : v1Ident.isPrefixOf bs = true
     · rw [← hn, h6, List.length_take]; omega
 
 
-theorem specV1_sound {bs : Bytes} {a : Adv} (hs : specV1 bs = some a) (hc : isV1ShortTcp6 bs = false) :
+theorem specV1_sound {bs : Bytes} {a : Adv} (hs : specV1 bs = some a) :
     ∃ h, readHeaderS bs = .ok (h, bs.drop a.hdrLen) ∧ remoteSel (.ok h) = a.remote ∧ localSel (.ok h) = a.loc := by
   unfold specV1 at hs
   split at hs
@@ -269,31 +277,7 @@ theorem specV1_sound {bs : Bytes} {a : Adv} (hs : specV1 bs = some a) (hc : isV1
                   rw [V1Line.bytes, hbody]; exact hbs
                 have hblen : (V1Line.mk kind f1 f2 f3 f4).bytes.length = n := by
                   rw [V1Line.bytes, hbody]; simp [v1Ident, crlf]; omega
-                have hmin : (match (V1Line.mk kind f1 f2 f3 f4).kind with | .tcp4 => 32 | .tcp6 => 24) ≤
-                    (V1Line.mk kind f1 f2 f3 f4).bytes.length := by
-                  cases kind with
-                  | tcp4 =>
-                    obtain ⟨v1, v2⟩ := hv4 rfl
-                    have := parseIP_v4_length v1 hp1
-                    have := parseIP_v4_length v2 hp2
-                    have := atoi_length h3
-                    have := atoi_length h4
-                    have hl : (V1Line.mk .tcp4 f1 f2 f3 f4).bytes.length = 11 + (V1Line.mk .tcp4 f1 f2 f3 f4).tail.length + 2 := by
-                      simp [V1Line.bytes, body_length, crlf]
-                    have ht : (V1Line.mk .tcp4 f1 f2 f3 f4).tail.length = f1.length + 1 + (f2.length + 1 + (f3.length + 1 + f4.length)) := by
-                      simp [V1Line.tail]; omega
-                    show 32 ≤ _
-                    omega
-                  | tcp6 =>
-                    show 24 ≤ _
-                    rw [hblen]
-                    unfold isV1ShortTcp6 at hc
-                    rw [hn] at hc
-                    have hp6 : (v1Ident ++ sTCP6).isPrefixOf bs = true := by
-                      rw [hbs, ← hj, hk]
-                      simp [v1Ident, sTCP6, V1Kind.tag, List.isPrefixOf]
-                    rw [hp6] at hc
-                    simpa using hc
+                have hmin := v1_line_min (V1Line.mk kind f1 f2 f3 f4) hp1 hp2 h3 h4 hv4
                 have hres := readHeaderS_v1_line (V1Line.mk kind f1 f2 f3 f4) hp1 hp2 h3 h4 (by rw [hblen]; omega) hmin (bs.drop n)
                 rw [← hb] at hres
                 exact ⟨_, hres, rfl, rfl⟩
@@ -302,22 +286,19 @@ theorem specV1_sound {bs : Bytes} {a : Adv} (hs : specV1 bs = some a) (hc : isV1
           · cases hs
 
 
-theorem specAdv_sound {bs : Bytes} {a : Adv} (hs : specAdv bs = some a)
-    (h1 : isV1ShortTcp6 bs = false) (h2 : isV2NilAddr bs = false) :
-    ∃ h, readHeaderS bs = .ok (h, bs.drop a.hdrLen) ∧ remoteSel (.ok h) = a.remote ∧ localSel (.ok h) = a.loc := by
+theorem specAdv_sound {bs : Bytes} {a : Adv} (hs : specAdv bs = some a) : ReadsAs bs a := by
   unfold specAdv at hs
   cases h2' : specV2 bs with
   | some a' =>
     rw [h2'] at hs
     injection hs with hs; subst hs
-    exact specV2_sound h2' h2
+    exact specV2_sound h2'
   | none =>
     rw [h2'] at hs
-    exact specV1_sound hs h1
+    exact Or.inl (specV1_sound hs)
 
-/-- the model passes every clause of the checker used on the implementation -/
-theorem holdsObs_model (bs : Bytes) (h1 : isV1ShortTcp6 bs = false) (h2 : isV2NilAddr bs = false) :
-    holdsObs bs (obsOf bs) = none := by
+/-- the model passes every clause of the checker used on the implementation, on every input -/
+theorem holdsObs_model (bs : Bytes) : holdsObs bs (obsOf bs) = none := by
   have hnp := readHeaderS_ne_panic bs
   unfold holdsObs obsOf
   rw [readHeader_eq]
@@ -330,13 +311,13 @@ theorem holdsObs_model (bs : Bytes) (h1 : isV1ShortTcp6 bs = false) (h2 : isV2Ni
     cases ha : specAdv bs with
     | none => rfl
     | some a =>
-      obtain ⟨h, hh, _⟩ := specAdv_sound ha h1 h2
-      rw [hr] at hh; cases hh
+      rcases specAdv_sound ha with ⟨h, hh, _⟩ | ⟨hm, _⟩
+      · rw [hr] at hh; cases hh
+      · simp [advCheck, hm]
   | ok p =>
     obtain ⟨h, rest⟩ := p
     dsimp only
-    have hr' : readHeader bs = .ok (h, rest) := by rw [readHeader_eq]; exact hr
-    obtain ⟨a1, a2⟩ := (readHeaderS_addr hr h2).sel
+    obtain ⟨a1, a2⟩ := sel_ne_missing (.ok h)
     have c1 : (remoteSel (.ok h) == AddrSel.missing) = false := by simpa using a1
     have c2 : (localSel (.ok h) == AddrSel.missing) = false := by simpa using a2
     have c3 : mustFail bs = false := by
@@ -364,13 +345,14 @@ theorem holdsObs_model (bs : Bytes) (h1 : isV1ShortTcp6 bs = false) (h2 : isV2Ni
     cases ha : specAdv bs with
     | none => rfl
     | some a =>
-      obtain ⟨h', hh, e1, e2⟩ := specAdv_sound ha h1 h2
-      rw [hr] at hh
-      have hp := Res.ok.inj hh
-      have hh1 : h = h' := congrArg Prod.fst hp
-      have hh2 : rest = bs.drop a.hdrLen := congrArg Prod.snd hp
-      subst hh1
-      simp only [advCheck, e1, e2, hh2, bne_self_eq_false, Bool.or_self, Bool.false_eq_true, if_false, Bool.not_true]
+      rcases specAdv_sound ha with ⟨h', hh, e1, e2⟩ | ⟨_, e, he⟩
+      · rw [hr] at hh
+        have hp := Res.ok.inj hh
+        have hh1 : h = h' := congrArg Prod.fst hp
+        have hh2 : rest = bs.drop a.hdrLen := congrArg Prod.snd hp
+        subst hh1
+        simp only [advCheck, e1, e2, hh2, bne_self_eq_false, Bool.or_self, Bool.false_eq_true, if_false, Bool.not_true]
+      · rw [hr] at he; cases he
 
 end C08
 end FwdVerif
